@@ -1,6 +1,7 @@
 (* Dispatcher of the model area: time zones (C11 C12 C13).
    [dispatch_tz f a] = Some result when [f] names a function of this area.  Definitions only. *)
 Require Import Lib.Base Model.Params Model.TzRules Model.TzCache Model.TzGen Model.TzId Gen.Gen_tz.
+Require Model.TzOnsets.
 From Coq Require Import String.
 Local Open Scope string_scope.
 
@@ -77,6 +78,27 @@ Definition dispatch_c12 (f : list N) (a : jv) : option jv :=
              match vtz_of l, jv_Zs ts with
              | Some v, Some ts' => JL (map (fun t => jrfc (rfc_offset v t)) ts')
              | _, _ => junsupported end
+         | _ => junsupported end
+  else if tzis f "tz_yearly_onsets" then
+    (* [y, mo, d, h, mi, s, bymonth, n, weekday (0 = MO), ["until", utc] | ["count", k] | ["unbounded"], tzoffsetfrom]
+       -> the local onsets of the rule (Model/TzOnsets.v), ["outside"] when the rule is not in the family *)
+    Some match a with
+         | JL [JZ y; JZ mo; JZ d; JZ h; JZ mi; JZ s; JZ bm; JZ n; JZ wd; JL b; JZ frm] =>
+             let bound :=
+               match b with
+               | [JS k; JZ u] => if tzis k "until" then Some (TzOnsets.YUntil u)
+                                 else if tzis k "count" then Some (TzOnsets.YCount u) else None
+               | [JS k] => if tzis k "unbounded" then Some TzOnsets.YUnbounded else None
+               | _ => None
+               end in
+             match bound with
+             | Some b' =>
+                 match TzOnsets.family_onsets (TzOnsets.mkYrule y mo d h mi s bm n wd b' frm) with
+                 | Some l => JL (map JZ l)
+                 | None => jtag "outside" []
+                 end
+             | None => junsupported
+             end
          | _ => junsupported end
   else if tzis f "tz_guard" then
     Some match a with
